@@ -11,7 +11,7 @@ package hx
 // and the Lean MODEL (Grip.C05.intercept over the regenerated AuthTables).  The Authenticate and
 // Access implementations are the harness's own (via the verif hook accounts.NewConfigVerif) so
 // that every Enforce(user, graph, op) call is recorded; the service implementation is a recorder.
-// Mode "live" (thorough tier only) starts the real server.Serve with BasicAuth + Casbin.
+// (server.Serve itself is not started: its wiring is covered by the translator's Serve table only.)
 
 import (
 	"context"
@@ -55,6 +55,7 @@ type c05State struct {
 	log     [][]string
 	handled []interface{}
 	ran     bool
+	refused time.Time // when Validate last failed (the interceptor returns right after)
 }
 
 var c05cur = &c05State{}
@@ -63,6 +64,7 @@ func (s *c05State) reset(users map[string]string, allow map[string]bool) {
 	s.mu.Lock()
 	defer s.mu.Unlock()
 	s.users, s.allow, s.log, s.handled, s.ran = users, allow, nil, nil, false
+	s.refused = time.Time{}
 }
 
 type c05Auth struct{}
@@ -72,11 +74,13 @@ func (c05Auth) Validate(md accounts.MetaData) (string, error) {
 	defer c05cur.mu.Unlock()
 	v := md["authorization"]
 	if len(v) == 0 {
+		c05cur.refused = time.Now()
 		return "", fmt.Errorf("no credentials")
 	}
 	if u, ok := c05cur.users[v[0]]; ok {
 		return u, nil
 	}
+	c05cur.refused = time.Now()
 	return "", fmt.Errorf("bad credentials")
 }
 
@@ -542,11 +546,26 @@ func c05CallGateway(e *c05Env, ctx context.Context, m c05Method, req proto.Messa
 			_, err := cl.CloseAndRecv()
 			done <- err
 		}()
-		select {
-		case err := <-done:
-			return err
-		case <-time.After(700 * time.Millisecond):
-			return errC05Hang
+		// The caller is considered hung when the interceptor has refused the call (Validate
+		// failed, after which it returns at once) and CloseAndRecv has still not returned 300 ms
+		// later; a call that was not refused gets 20 s (loaded machines).
+		deadline := time.After(20 * time.Second)
+		tick := time.NewTicker(10 * time.Millisecond)
+		defer tick.Stop()
+		for {
+			select {
+			case err := <-done:
+				return err
+			case <-deadline:
+				return fmt.Errorf("timeout")
+			case <-tick.C:
+				c05cur.mu.Lock()
+				ref := c05cur.refused
+				c05cur.mu.Unlock()
+				if !ref.IsZero() && time.Since(ref) > 300*time.Millisecond {
+					return errC05Hang
+				}
+			}
 		}
 	}
 	return fmt.Errorf("kind %s not driven", m.Kind)
@@ -575,9 +594,6 @@ func c05Exec(op map[string]interface{}) (obs map[string]interface{}) {
 			obs = map[string]interface{}{"err": "panic", "handled": nil, "log": []interface{}{}, "why": fmt.Sprint(p)}
 		}
 	}()
-	if op["op"] == "live" {
-		return c05Live(op)
-	}
 	full, _ := op["m"].(string)
 	m, ok := c05MethodByFull(full)
 	if !ok {
@@ -665,10 +681,6 @@ func c05Req(m c05Method, graph, tag string) map[string]interface{} {
 }
 
 func c05Gen(r *Run) {
-	if r.Mode == "live" {
-		c05GenLive(r)
-		return
-	}
 	r.Rule = "distinct (method, transport, configuration, credential state, decision) tuples"
 	methods := c05Methods()
 	users := []interface{}{[]interface{}{"t-alice", "alice"}, []interface{}{"t-bob", "bob"}}
@@ -735,9 +747,6 @@ func c05Gen(r *Run) {
 	toks := []interface{}{"t-alice", "t-bob", "t-mallory", nil, ""}
 	for i := 0; i < n; i++ {
 		m := methods[r.Rng.Intn(len(methods))]
-		if m.Kind == "clientStream" && r.Rng.Intn(3) != 0 {
-			// keep bulk streams frequent but not dominant
-		}
 		var allow []interface{}
 		for k := r.Rng.Intn(6); k > 0; k-- {
 			allow = append(allow, []interface{}{Pick(r.Rng, []string{"alice", "bob"}), Pick(r.Rng, graphs), Pick(r.Rng, c05Ops)})
